@@ -365,6 +365,10 @@ func runC06(c *ctx) error {
 			times[int64(p.Time)-1] = true
 			times[int64(p.Time)+1] = true
 		}
+		// instants before the Unix epoch (negative Unix time): one second, one year, and the year 1
+		if i%2 == 0 {
+			times[[]int64{-1, -31536000, -62135596800}[(i/2)%3]] = true
+		}
 		var ts []int64
 		for t := range times {
 			ts = append(ts, t)
@@ -372,6 +376,9 @@ func runC06(c *ctx) error {
 		sort.Slice(ts, func(a, b int) bool { return ts[a] < ts[b] })
 		for _, t := range ts {
 			tt := t
+			if t < 0 {
+				r.Count("version_time_before_epoch", fmt.Sprint(t))
+			}
 			hv := &world.History{Level: 1, Pub: pubS, Unpub: unpub, VersionTime: &tt}
 			// the same instant written with a zone offset (every third cut)
 			if cuts%3 == 1 {
